@@ -16,7 +16,8 @@ from harness import core, sysrun
 MODES = ("plain", "cancel", "kill", "timeout", "sbatchfail", "squeuefail", "write", "hooks", "cyclic", "local", "racing_try", "appendtimeout", "suspend", "resubmit", "scanerror", "multigroup", "suspendcancel", "interrupt", "resubmit_nofault", "resubmit_hooks", "bigloss")
 WRITE_SITES = ["write:job_status.json", "write:cluster_config.json", "write:config_version", "write:job_status_version",
                "write:batch_config", "write:marker_touch", "write:marker_remove", "append:processed_results.csv",
-               "consolidate:processed_results.csv", "consolidate:processed_results.csv"]
+               "consolidate:processed_results.csv", "consolidate:processed_results.csv",
+               "fwrite:processed_results.csv", "fwrite:processed_results.csv"]
 
 
 def make_case(seed, mode):
@@ -90,6 +91,8 @@ def make_case(seed, mode):
         plan["write_error"] = [rng.choice(WRITE_SITES), rng.randint(2, 7)]
         if plan["write_error"][0].startswith("consolidate:"):
             plan["write_error"][1] = rng.randint(1, 3)
+        if plan["write_error"][0].startswith("fwrite:"):
+            plan["write_error"][1] = rng.randint(2, 5)      # (the first open creates the file at submit-jobs)
         plan["break_stale"] = rng.random() < 0.5
     elif mode == "scanerror":
         # the size scan of a finished job's output directory fails (dangling link): the node stops; jobs waiting for
@@ -119,6 +122,10 @@ def make_case(seed, mode):
         # a batch is suspended by the scheduler (a state jade does not map) when the user cancels: it is active and must
         # be asked to cancel like any other
         plan["actions"] = [{"at": at, "do": "suspend"}, {"at": at + rng.randint(1, 20), "do": "cancel"}]
+        if rng.random() < 0.5:
+            # somebody runs a submitter round while the batch is held, before the user cancels
+            plan["actions"] = [{"at": at, "do": "suspend"}, {"at": at + rng.randint(1, 12), "do": "try"},
+                               {"at": at + rng.randint(25, 50), "do": "cancel"}]
         if rng.random() < 0.5:
             plan["actions"].append({"at": at + rng.randint(25, 60), "do": "try"})
     elif mode in ("resubmit", "resubmit_nofault", "resubmit_hooks", "bigloss"):
@@ -375,6 +382,16 @@ def final_oracles(sc, plan, r):
             still = [x for x in ev.get("active", []) if x in (snap_ids or []) and x not in asked]
             if still:
                 probs.append(("C14", "active-batch-not-canceled", f"batches {still} active and persisted but never scancel'ed"))
+            # a batch that the status listed once, that is still active and that a round has dropped from the list in
+            # the meantime (the scheduler never stopped reporting it) is not asked to cancel either
+            ever = set()
+            for e in tr[:i]:
+                if e["k"] in ("update_status", "observe") and isinstance(e.get("snapshot"), dict):
+                    ever.update(e["snapshot"].get("ids") or [])
+            dropped = [x for x in ev.get("active", []) if x in ever and x not in (snap_ids or []) and x not in asked]
+            if dropped and not any(e["k"] in ("kill", "write_error") for e in tr[:i]):
+                probs.append(("C14", "active-batch-dropped-from-status-not-canceled",
+                              f"batches {dropped} were listed in the status, are still active at the cancel, were dropped from the list by a round and are never scancel'ed"))
     # C14 / C05: after cancel-jobs the documented try-submit-jobs still completes the submission (nothing is active any
     # more): results collected, the rest reported missing
     if any(e["k"] == "mark_canceled" and e.get("ok") for e in tr) and not r["stuck"] and not complete \
